@@ -358,6 +358,44 @@ fn check_pool(pw: &PoolWorld, cx: &mut Cx, cases: &mut Vec<Value>) {
             cx.check("disabled.every_entry_path_rejected", r.is_err(), || format!("{} pool (liquidity {}) switches {:?} set in a combined update: {} succeeded although its operation is disabled", pw.kind, pw.liquidity, t, p));
         }
     }
+    // an update message that spells out only ONE of the three switches (raw JSON through the factory, as a front-end or a
+    // script would send it): it is either refused and nothing changes, or it changes exactly the switch it names; a
+    // switch that was paused and is not mentioned must never come back on
+    let read = |w: &World| -> (bool, bool, bool) {
+        if let Some(tr) = &pw.trio {
+            let c: white_whale_std::pool_network::trio::Config = w.query(&tr.addr, &white_whale_std::pool_network::trio::QueryMsg::Config {}).unwrap();
+            (c.feature_toggle.withdrawals_enabled, c.feature_toggle.deposits_enabled, c.feature_toggle.swaps_enabled)
+        } else {
+            let c: white_whale_std::pool_network::pair::Config = w.query(&pw.p1.as_ref().unwrap().addr, &white_whale_std::pool_network::pair::QueryMsg::Config {}).unwrap();
+            (c.feature_toggle.withdrawals_enabled, c.feature_toggle.deposits_enabled, c.feature_toggle.swaps_enabled)
+        }
+    };
+    for t in toggles_all() {
+        w.restore(&pw.snap);
+        set_pool_toggles(&mut w, pw, t).expect("toggle update");
+        let base = w.snapshot();
+        for (which, name) in ["withdrawals_enabled", "deposits_enabled", "swaps_enabled"].iter().enumerate() {
+            for val in [false, true] {
+                w.restore(&base);
+                let raw = if let Some(tr) = &pw.trio {
+                    format!(r#"{{"update_trio_config":{{"trio_addr":"{}","feature_toggle":{{"{}":{}}}}}}}"#, tr.addr, name, val)
+                } else {
+                    format!(r#"{{"update_pair_config":{{"pair_addr":"{}","feature_toggle":{{"{}":{}}}}}}}"#, pw.p1.as_ref().unwrap().addr, name, val)
+                };
+                let r = w.exec_raw(OWNER, &pw.hub.factory, cosmwasm_std::Binary::from(raw.clone().into_bytes()), &[]);
+                let mut want = t;
+                if r.is_ok() {
+                    match which {
+                        0 => want.0 = val,
+                        1 => want.1 = val,
+                        _ => want.2 = val,
+                    }
+                }
+                cx.count(if r.is_ok() { "case:partial_toggle_message:accepted" } else { "case:partial_toggle_message:refused" });
+                cx.check("partial_update.changes_exactly_the_named_switch", read(&w) == want, || format!("{} pool with switches (w,d,s) {:?}: the message {} was {} and left the switches at {:?}, expected {:?}", pw.kind, t, raw, if r.is_ok() { "accepted" } else { "refused" }, read(&w), want));
+            }
+        }
+    }
     // code upgrade through the factory: a pair whose storage has the v1.1.0 layout (config without burn fee, cw2
     // version 1.1.0), resp. a three-asset pool stored under an older version, must keep its switches
     for t in toggles_all() {
